@@ -165,72 +165,75 @@ def enumOk (x : Fn) (r : Enum) : Bool :=
    | none => ones.isEmpty)
 
 /-! C11: reference shape predicates, written independently of `isNnf`/`isCnf`/`isDnf` -/
+section
+variable {α : Type}
 mutual
-def constFree : Expr String → Bool
+def constFree : Expr α → Bool
   | .lit _ => true
   | .const _ => false
   | .not e => constFree e
   | .and es => constFreeL es
   | .or es => constFreeL es
-def constFreeL : List (Expr String) → Bool
+def constFreeL : List (Expr α) → Bool
   | [] => true
   | e :: es => constFree e && constFreeL es
 end
 
 mutual
-def noEmptyNary : Expr String → Bool
+def noEmptyNary : Expr α → Bool
   | .lit _ => true
   | .const _ => true
   | .not e => noEmptyNary e
   | .and es => !es.isEmpty && noEmptyNaryL es
   | .or es => !es.isEmpty && noEmptyNaryL es
-def noEmptyNaryL : List (Expr String) → Bool
+def noEmptyNaryL : List (Expr α) → Bool
   | [] => true
   | e :: es => noEmptyNary e && noEmptyNaryL es
 end
 
 mutual
 /-- negations only on variables -/
-def negOnlyOnVars : Expr String → Bool
+def negOnlyOnVars : Expr α → Bool
   | .lit _ => true
   | .const _ => true
   | .not (.lit _) => true
   | .not _ => false
   | .and es => negOnlyOnVarsL es
   | .or es => negOnlyOnVarsL es
-def negOnlyOnVarsL : List (Expr String) → Bool
+def negOnlyOnVarsL : List (Expr α) → Bool
   | [] => true
   | e :: es => negOnlyOnVars e && negOnlyOnVarsL es
 end
 
 mutual
 /-- `below = true`: we are somewhere below a disjunction, so no conjunction may occur -/
-def noAndBelowOr (below : Bool) : Expr String → Bool
+def noAndBelowOr (below : Bool) : Expr α → Bool
   | .lit _ => true
   | .const _ => true
   | .not e => noAndBelowOr below e
   | .and es => !below && noAndBelowOrL below es
   | .or es => noAndBelowOrL true es
-def noAndBelowOrL (below : Bool) : List (Expr String) → Bool
+def noAndBelowOrL (below : Bool) : List (Expr α) → Bool
   | [] => true
   | e :: es => noAndBelowOr below e && noAndBelowOrL below es
 end
 
 mutual
-def noOrBelowAnd (below : Bool) : Expr String → Bool
+def noOrBelowAnd (below : Bool) : Expr α → Bool
   | .lit _ => true
   | .const _ => true
   | .not e => noOrBelowAnd below e
   | .or es => !below && noOrBelowAndL below es
   | .and es => noOrBelowAndL true es
-def noOrBelowAndL (below : Bool) : List (Expr String) → Bool
+def noOrBelowAndL (below : Bool) : List (Expr α) → Bool
   | [] => true
   | e :: es => noOrBelowAnd below e && noOrBelowAndL below es
 end
 
-def shapeNnf (e : Expr String) : Bool := constFree e && negOnlyOnVars e
-def shapeCnf (e : Expr String) : Bool := shapeNnf e && noAndBelowOr false e
-def shapeDnf (e : Expr String) : Bool := shapeNnf e && noOrBelowAnd false e
+def shapeNnf (e : Expr α) : Bool := constFree e && negOnlyOnVars e
+def shapeCnf (e : Expr α) : Bool := shapeNnf e && noAndBelowOr false e
+def shapeDnf (e : Expr α) : Bool := shapeNnf e && noOrBelowAnd false e
+end
 
 inductive NF where | nnf | cnf | dnf
 deriving DecidableEq, Repr
